@@ -40,6 +40,7 @@ type c16Params struct {
 	Bars     bool   `json:"bars"`
 	Count    bool   `json:"count"` // count yield hits (synchronises: no race hunting in this case)
 	FailAt   int    `json:"fail_at,omitempty"`
+	Cmd      string `json:"cmd,omitempty"` // cli-error: commit | merge
 }
 
 type syncBuf struct {
@@ -478,6 +479,50 @@ func c16Run(c *fw.Case, env *fw.Env) *fw.Obs {
 		}
 		o.Ev("oracle_evaluations", 1)
 		o.Key("cli/w%d/b%d/y%d", p.Workers, p.Blocks, p.Yield)
+	case "cli-error":
+		// the real binary with its default progress bars; one store write of the command fails: the command must
+		// report the error and exit (a stuck process is judged by the goroutine dump it prints on SIGQUIT)
+		dir := filepath.Join(env.Dir, "clierr-"+c.ID)
+		os.RemoveAll(dir)
+		os.MkdirAll(dir, 0755)
+		defer os.RemoveAll(dir)
+		setup := [][]string{{"init"}, {"config", "set", "user.name", "V"}, {"config", "set", "user.email", "v@example.com"}}
+		os.WriteFile(filepath.Join(dir, "a.csv"), c16Table(p.Blocks, 1), 0644)
+		os.WriteFile(filepath.Join(dir, "b.csv"), c16Table(p.Blocks, 2), 0644)
+		w := fmt.Sprint(p.Workers)
+		cmd := []string{"commit", "main", "a.csv", "one", "-p", "id", "-n", w}
+		if p.Cmd == "merge" {
+			setup = append(setup, []string{"commit", "main", "a.csv", "one", "-p", "id", "-n", w, "--no-progress"}, []string{"branch", "create", "other", "main"},
+				[]string{"commit", "other", "b.csv", "two", "-p", "id", "-n", w, "--no-progress"}, []string{"commit", "main", "b.csv", "three", "-p", "id", "-n", w, "--no-progress"},
+				[]string{"commit", "other", "a.csv", "four", "-p", "id", "-n", w, "--no-progress"})
+			cmd = []string{"merge", "main", "other", "--no-gui", "-n", w}
+		}
+		for _, st := range setup {
+			if r := runWrglProc(env, dir, nil, st...); r.exit != 0 {
+				o.Status = "inconclusive"
+				o.Note = fmt.Sprintf("setup %v: %s", st, tailStr(r.out, 300))
+				return o
+			}
+		}
+		r := runWrglProc(env, dir, []string{"VERIF_FAIL_AT=" + fmt.Sprint(p.FailAt)}, cmd...)
+		o.Ev("oracle_evaluations", 1)
+		o.Ev("cli_commands_with_injected_error", 1)
+		switch {
+		case r.timedOut && parkedInWrgl(r.out):
+			o.Violate("deadlock/cli-"+p.Cmd+"-error", "wrgl %v with store write %d failing did not exit; goroutines parked in wrgl code:\n%s", cmd, p.FailAt, tailStr(r.out, 5000))
+		case r.timedOut:
+			o.Status = "inconclusive"
+			o.Note = "command did not exit within the watchdog and no goroutine is parked in wrgl code"
+		case strings.Contains(r.out, "panic:") || strings.Contains(r.out, "fatal error:"):
+			o.Violate("panic-on-store-error/cli-"+p.Cmd, "write %d: %s", p.FailAt, tailStr(r.out, 3000))
+		case r.exit == 0 && strings.Contains(r.out, "injected"):
+			o.Violate("worker-error-not-reported/cli-"+p.Cmd, "write %d failed, the error was printed but the command exited 0: %s", p.FailAt, tailStr(r.out, 600))
+		case r.exit == 0:
+			o.Ev("cli_error_position_not_reached", 1)
+		default:
+			o.Ev("injected_errors_reported", 1)
+		}
+		o.Key("cli-error/%s/w%d/b%d/f%d", p.Cmd, p.Workers, p.Blocks, p.FailAt)
 	}
 	if p.Count {
 		for site, n := range verifhook.YieldHits() {
@@ -538,6 +583,14 @@ func init() {
 			for i := 0; i < l.N(12, 300); i++ {
 				l.Add("diff", c16Params{Pipeline: "diff", Blocks: 2 + rng.Intn(3), Procs: procSet[rng.Intn(4)], Yield: uint64(1 + rng.Intn(1<<30))}, 0)
 				l.Add("merge", c16Params{Pipeline: "merge", Blocks: 2 + rng.Intn(2), Procs: procSet[rng.Intn(4)], Yield: uint64(1 + rng.Intn(1<<30))}, 0)
+			}
+			// the real binary, default progress bars, one failing store write at every position
+			cliWrites := 4*2 + 5
+			for j := 1; j <= cliWrites; j += step {
+				l.Add("cli-error", c16Params{Pipeline: "cli-error", Cmd: "commit", Blocks: 4, Workers: []int{3, 4, 6}[j%3], FailAt: j}, 0)
+			}
+			for j := 1; j <= 12; j += 2 * step {
+				l.Add("cli-error", c16Params{Pipeline: "cli-error", Cmd: "merge", Blocks: 2, Workers: 4, FailAt: j}, 0)
 			}
 			for i := 0; i < l.N(4, 80); i++ {
 				l.Add("cli", c16Params{Pipeline: "cli", Blocks: 3 + rng.Intn(8), Workers: []int{4, 6, 10}[rng.Intn(3)], Procs: procSet[1+rng.Intn(3)], Yield: uint64(1 + rng.Intn(1<<30))}, 0)
